@@ -95,7 +95,7 @@ class Conv:
             gens = []
         self.var = {a.get_id(): g for a, g in zip(self.atoms, gens)}
         self.memo = {}
-        self.budget = 200000
+        self.budget = 2500
 
     def frac(self, e):
         i = e.get_id()
